@@ -78,4 +78,34 @@ def inlineUniformB (S : Schema) : Bool :=
     (List.range (S.dfa t).size).all (fun q => (List.range (S.dfa t).size).all (fun r =>
       ((S.dfa t).edgesOf q).all (fun e => (S.dfa t).matchType r e.1 == some e.2))))
 
+/-! ### a hypothesis about the document: no high surrogate without its low surrogate -/
+
+/-- every high surrogate unit of the text is followed by a low surrogate unit (what a Python `str` without lone
+    surrogates satisfies; `TextNode.__init__` encodes the text as UTF-16, which refuses lone surrogates) -/
+def highClosed : List Nat → Bool
+  | [] => true
+  | [a] => !isHigh a
+  | a :: b :: r => (!isHigh a || isLow b) && highClosed (b :: r)
+
+mutual
+def Node.highClosed : Node → Bool
+  | .text s _ => PM.highClosed s
+  | .leaf .. => true
+  | .elem _ _ _ k => highClosedKids k
+def highClosedKids : List Node → Bool
+  | [] => true
+  | n :: ns => n.highClosed && highClosedKids ns
+end
+
+/-- the position does not fall between the two halves of a surrogate pair of the text child it resolves into
+    (`C11.pairAligned`, Props/C11.lean, is this function: `pairAligned_eq`) -/
+def pairAlignedB (doc : Node) (pos : Nat) : Bool :=
+  match doc.resolve pos with
+  | some r =>
+    r.textOffset = 0 ||
+      (match r.parent.kids[r.index r.depth]? with
+       | some (.text s _) => splitOk s r.textOffset
+       | _ => true)
+  | none => true
+
 end PM
